@@ -2,7 +2,7 @@
  * contents): whenever the iterator holds a block, block_offset is the offset that block was loaded from.
  * reader_iter_next and reader_iter_seek are enforced under DFCC; block.c functions and get_block are replaced by
  * contracts; get_block's contract records (block, offset) in ghosts. */
-#include "/repo/mtbl/reader.c"
+#include "mtbl/reader.c"
 #include "spec/ghost.h"
 
 struct block *vg_blk_ptr; uint64_t vg_blk_off;          /* the block most recently loaded and the offset it came from */
